@@ -49,6 +49,7 @@ PairViol(e) ==
 RawPeerViol(e) ==
     LET x == BeExpect(st, e.k, e.r) IN
     IF e.res = "panic" THEN {"C06/panic/proxy/k=" \o Str(e.k)}
+    ELSE IF e.res = "stuck" THEN {"C06/proxy/hang-on-bad-ack/" \o e.peer, "C10/be/call-never-returns-even-after-the-connection-is-gone/k=" \o Str(e.k)}
     ELSE IF ~x.wire
     THEN (IF e.nwire # 0 \/ e.leftover # 0 THEN {"C07/proxy/disabled-request-sent/k=" \o Str(e.k)} ELSE {})
          \cup (IF ResIsOk(e) THEN {"C07/proxy/disabled-request-succeeded/k=" \o Str(e.k)} ELSE {})
